@@ -264,6 +264,9 @@ func NewLogger(filename string, rule RotateRule, compress bool) (*RotateLogger, 
 
 // Write 将 data 写入轮换日志。
 func (l *RotateLogger) Write(data []byte) (int, error) {
+	// 数据由后台协程异步写入，而调用方在 Write 返回后即可复用 data
+	//（如 fmt.Fprint 的缓冲池），所以入队前必须复制一份。
+	data = append([]byte(nil), data...)
 	select {
 	case l.channel <- data:
 		return len(data), nil
